@@ -124,12 +124,19 @@ Proof.
   intro H. apply andb_true_iff in H as [E P]. rewrite E. cbn. eapply IH; eauto.
 Qed.
 
+Lemma lprefixb_trans a : forall b c, lprefixb a b = true -> lprefixb b c = true -> lprefixb a c = true.
+Proof.
+  induction a as [|x xs IH]; intros [|y ys] [|z zs]; cbn; try discriminate; auto.
+  intros H1 H2. apply andb_true_iff in H1 as [E1 P1]. apply andb_true_iff in H2 as [E2 P2].
+  apply str_eqb_eq in E1, E2. subst. rewrite str_eqb_refl. cbn. eapply IH; eauto.
+Qed.
+
 Lemma dt_upgrade_trans a b c : dt_upgrade a b = true -> dt_upgrade b c = true -> dt_upgrade a c = true.
 Proof.
   unfold dt_upgrade. intros H1 H2.
   apply andb_true_iff in H1 as [H1 P1]. apply andb_true_iff in H1 as [H1 L1]. apply andb_true_iff in H1 as [Fb Fa].
   apply andb_true_iff in H2 as [H2 P2]. apply andb_true_iff in H2 as [H2 L2]. apply andb_true_iff in H2 as [Fc Fb'].
-  rewrite Fc, Fa, (prefixb_trans a b c P1 P2). cbn. rewrite andb_true_r.
+  rewrite Fc, Fa, (lprefixb_trans _ _ _ P1 P2). cbn. rewrite andb_true_r.
   apply Nat.ltb_lt in L1, L2. apply Nat.ltb_lt. lia.
 Qed.
 
